@@ -188,7 +188,7 @@ theorem vclsScan (fl : Flags) : VClsScan fl := by
   obtain ⟨f, rfl⟩ : ∃ f, fuel = f + 1 := ⟨fuel - 1, by omega⟩
   simp only [printVClass] at hf ⊢
   rw [printVOp_cls] at hf ⊢
-  refine ⟨sc, f, by simp only [List.length_append, List.length_cons] at hf; omega, ?_, TrEq.refl _⟩
+  refine ⟨sc, f, by simp only [List.length_append, List.length_cons] at hf; omega, ?_, rfl⟩
   have hskip : skipBracketV ((if neg then [0x5E] else []) ++ vBody op ops ++ 0x5D :: rest) 1 = rest := by
     have h1 : SkipV ((if neg then [0x5E] else []) ++ vBody op ops) := by
       apply SkipV.append _ (skipV_body op ops (fun o ho => skipV_op o (lexVOps_mem hlex o ho)))
